@@ -641,6 +641,10 @@ impl<S: AsyncWrite + Unpin> AsyncWrite for RateLimited<S> {
     }
 }
 
+#[cfg(kani)]
+#[path = "/verif/kani/iroh_relay/streams.rs"]
+mod verif_kani;
+
 #[cfg(test)]
 mod tests {
     use std::sync::Arc;
